@@ -304,16 +304,27 @@ theorem goAbs_shape (g : GoSpec) (base : Nat) (upper : Bool) (neg : Bool) (ds0 :
   rw [hpad, ← spaces_add]
   simp [List.append_assoc]
 
-theorem intPbB_shape (f : Fmt) (i : Int) (hb : f.letter = 'b' ∨ f.letter = 'B') :
+/-- the sign flag of a Format record is absent, `+` or a blank -/
+def PlusOK (f : Fmt) : Prop := f.plus = none ∨ f.plus = some '+' ∨ f.plus = some ' '
+
+theorem pbbSign_shape (f : Fmt) (i : Int) (hp : f.letter ≠ 'p') (hplus : PlusOK f) :
+    ∃ j sign, pbbSign f i = spaces j ++ sign ∧ SignOK (decide (i < 0)) sign := by
+  unfold pbbSign
+  rw [if_neg hp]
+  by_cases hn : i < 0
+  · rw [if_pos hn]; exact ⟨0, ['-'], by simp [spaces], Or.inl ⟨by simp [hn], rfl⟩⟩
+  · rw [if_neg hn]
+    rcases hplus with h | h | h <;> rw [h]
+    · exact ⟨0, [], by simp [spaces], Or.inr ⟨by simp [hn], Or.inl rfl⟩⟩
+    · exact ⟨0, ['+'], by simp [spaces], Or.inr ⟨by simp [hn], Or.inr rfl⟩⟩
+    · exact ⟨1, [], by simp [spaces], Or.inr ⟨by simp [hn], Or.inl rfl⟩⟩
+
+theorem intPbB_shape (f : Fmt) (i : Int) (hb : f.letter = 'b' ∨ f.letter = 'B') (hplus : PlusOK f) :
     ∃ a k bb sign pfx, intPbB f i = spaces a ++ sign ++ pfx ++ zeros k ++ natStr 2 false i.natAbs ++ spaces bb ∧
       SignOK (decide (i < 0)) sign ∧
       (pfx = [] ∨ (pfx = ['0', f.letter] ∧ (f.letter = 'x' ∨ f.letter = 'X' ∨ f.letter = 'b' ∨ f.letter = 'B'))) := by
   have hp : f.letter ≠ 'p' := by rcases hb with h | h <;> rw [h] <;> decide
-  have hsok : SignOK (decide (i < 0)) (pbbSign f i) := by
-    unfold pbbSign
-    by_cases hn : i < 0
-    · simp [hn, hp, SignOK]
-    · simp [hn, SignOK]
+  obtain ⟨j, sign, hsg, hsok⟩ := pbbSign_shape f i hp hplus
   have hpok : pbbPrefix f i = [] ∨ (pbbPrefix f i = ['0', f.letter] ∧ (f.letter = 'x' ∨ f.letter = 'X' ∨ f.letter = 'b' ∨ f.letter = 'B')) := by
     unfold pbbPrefix
     by_cases ha : (f.alt && decide (i ≠ 0)) = true
@@ -327,13 +338,12 @@ theorem intPbB_shape (f : Fmt) (i : Int) (hb : f.letter = 'b' ∨ f.letter = 'B'
     rcases hb with h | h <;> simp [h]
   unfold intPbB
   simp only [hds, if_neg hp]
+  generalize hsp : f.width.getD 0 - ((pbbSign f i).length + (pbbPrefix f i).length + (natStr 2 false i.natAbs).length + pbbZeroPad f i) = sp
+  rw [hsg]
   cases hl : f.left
-  · refine ⟨f.width.getD 0 - ((pbbSign f i).length + (pbbPrefix f i).length + max (f.prec.getD 0) (natStr 2 false i.natAbs).length),
-      f.prec.getD 0 - (natStr 2 false i.natAbs).length, 0, pbbSign f i, pbbPrefix f i, ?_, hsok, hpok⟩
-    simp [spaces, List.append_assoc]
-  · refine ⟨0, f.prec.getD 0 - (natStr 2 false i.natAbs).length,
-      f.width.getD 0 - ((pbbSign f i).length + (pbbPrefix f i).length + max (f.prec.getD 0) (natStr 2 false i.natAbs).length),
-      pbbSign f i, pbbPrefix f i, ?_, hsok, hpok⟩
+  · refine ⟨sp + j, pbbZeroPad f i, 0, sign, pbbPrefix f i, ?_, hsok, hpok⟩
+    simp [spaces, List.append_assoc, ← List.replicate_append_replicate]
+  · refine ⟨j, pbbZeroPad f i, sp, sign, pbbPrefix f i, ?_, hsok, hpok⟩
     simp [spaces, List.append_assoc]
 
 theorem int_of_natAbs (i : Int) : (if decide (i < 0) = true then -(i.natAbs : Int) else (i.natAbs : Int)) = i := by
@@ -372,9 +382,9 @@ theorem goInteger_radix_back (g : GoSpec) (i : Int) (base : Nat) (upper : Bool)
   rw [this, int_of_natAbs]
 
 /-- **radix renderings read back** (hand-written `b B` branch) -/
-theorem intPbB_radix_back (f : Fmt) (i : Int) (hb : f.letter = 'b' ∨ f.letter = 'B') :
+theorem intPbB_radix_back (f : Fmt) (i : Int) (hb : f.letter = 'b' ∨ f.letter = 'B') (hplus : PlusOK f) :
     readRadix f.letter (intPbB f i) = some i := by
-  obtain ⟨a, k, bb, sign, pfx, heq, hsok, hpfx⟩ := intPbB_shape f i hb
+  obtain ⟨a, k, bb, sign, pfx, heq, hsok, hpfx⟩ := intPbB_shape f i hb hplus
   have hr : radixOf f.letter = 2 := by rcases hb with h | h <;> rw [h] <;> decide
   rw [heq]
   have := readRadix_shape f.letter false a k bb i.natAbs sign pfx (decide (i < 0)) (by rw [hr]; omega) (by rw [hr]; omega) hsok hpfx
